@@ -22,18 +22,19 @@ const (
 // Tokenizer is a reusable JSON tokenizer. It can be reused for multiple parsings
 // which allows buffer reuse for a performance advantage.
 type Tokenizer struct {
-	tmp       []byte // used for numbers and strings
-	runeBytes []byte
-	starts    []byte
-	handler   oj.TokenHandler
-	line      int
-	noff      int // Offset of last newline from start of buf. Can be negative when using a reader.
-	ri        int // read index for null, false, and true
-	mi        int
-	num       gen.Number
-	rn        rune
-	mode      string
-	exkey     bool
+	tmp        []byte // used for numbers and strings
+	runeBytes  []byte
+	starts     []byte
+	handler    oj.TokenHandler
+	line       int
+	noff       int // Offset of last newline from start of buf. Can be negative when using a reader.
+	ri         int // read index for null, false, and true
+	mi         int
+	num        gen.Number
+	rn         rune
+	mode       string
+	exkey      bool
+	quoteDelim byte
 
 	// OnlyOne returns an error if more than one JSON is in the string or stream.
 	OnlyOne bool
@@ -254,6 +255,7 @@ func (t *Tokenizer) tokenizeBuffer(buf []byte, last bool) {
 			}
 			off += i
 		case valQuote:
+			t.quoteDelim = b
 			start := off + 1
 			if len(buf) <= start {
 				t.tmp = t.tmp[:0]
@@ -266,7 +268,7 @@ func (t *Tokenizer) tokenizeBuffer(buf []byte, last bool) {
 				}
 			}
 			off += i
-			if b == '"' {
+			if b == t.quoteDelim {
 				off++
 				t.addString(string(buf[start:off]))
 			} else {
@@ -380,7 +382,11 @@ func (t *Tokenizer) tokenizeBuffer(buf []byte, last bool) {
 			}
 			off += i
 		case strQuote:
-			t.addString(string(t.tmp))
+			if b == t.quoteDelim {
+				t.addString(string(t.tmp))
+			} else {
+				t.tmp = append(t.tmp, b)
+			}
 		case numZero:
 			t.mode = zeroMap
 		case numDigit:
@@ -444,6 +450,19 @@ func (t *Tokenizer) tokenizeBuffer(buf []byte, last bool) {
 			t.mode = commentMap
 		case commentEnd:
 			t.mode = valueMap
+			continue
+		case ccommentStart:
+			t.mode = ccommentMap
+		case ccommentEnd:
+			t.mode = ccommentEndMap
+		case cskipChar: // skip and back to ccomment
+			t.mode = ccommentMap
+			continue
+		case cskipNewline:
+			t.line++
+			t.noff = off
+			t.mode = ccommentMap
+			continue
 		case charErr:
 			t.byteError(off, t.mode, b)
 		}
